@@ -4,7 +4,9 @@
    quantified; sensor_valid_statuses / sensor_status_width are regenerated from the source on every run. *)
 From Coq Require Import ZArith QArith List Bool String.
 From KV Require Import Base.Sx Base.Str Gen.Generated Model.Interp Model.SensorCache Model.SensorWild Model.SensorVirt
-  Proofs.InterpP Proofs.SensorCacheP Proofs.SensorWildP Proofs.SensorVirtP.
+  Model.SensorKeep Model.SensorTmpl Model.SensorApi Model.SensorFill Model.SensorV4
+  Proofs.InterpP Proofs.SensorCacheP Proofs.SensorWildP Proofs.SensorVirtP
+  Proofs.SensorKeepP Proofs.SensorTmplP Proofs.SensorApiP Proofs.SensorFillP Proofs.SensorShapeP Proofs.SensorV4P.
 Import ListNotations.
 Open Scope Q_scope.
 
@@ -317,3 +319,484 @@ Theorem C12_virtual_registry :
   forall a, In a virtual_cache_attrs -> In a ["get"; "setitem"; "timestamps"; "update"]%string.
 Proof. exact virtual_registry. Qed.
 Print Assumptions C12_virtual_registry.
+
+
+(* ====================================================================================================================
+   Session 5: the paths from the public API down to the modelled core.
+   ==================================================================================================================== *)
+
+(* ---- the clean-up and the status filter, exactly ---- *)
+(* From the source at every run: the sort is the STABLE mergesort and the LAST sample of a run of equal timestamps
+   survives (`list(np.diff(x) != 0) + [True]`) - what Model/SensorCache.clean (insertion sort, keep_last) mirrors. *)
+Theorem C12_cleanup_shape : sensor_sort_kind = "mergesort"%string /\ sensor_dup_rule = "last"%string.
+Proof. exact cleanup_shape. Qed.
+Print Assumptions C12_cleanup_shape.
+
+(* The readable statuses are EXACTLY nominal / warn / error: of all strings of at most 7 characters (every KATCP
+   status) these three and no other keep their sample. *)
+Theorem C12_status_exact : forall s, (String.length s <= 7)%nat ->
+  (status_ok s = true <-> s = "nominal"%string \/ s = "warn"%string \/ s = "error"%string).
+Proof. exact status_exact. Qed.
+Print Assumptions C12_status_exact.
+
+(* Only the first seven characters of a recorded status count (`astype('|S7')`): "nominal " and "nominally" read as
+   nominal, "warning" / "errors" / "Nominal" / "" / integer statuses do not. *)
+Theorem C12_status_first7 :
+  (forall s t, substring 0 7 s = substring 0 7 t -> status_ok s = status_ok t) /\
+  map status_ok ["nominal"; "warn"; "error"; "unknown"; "failure"; "unreachable"; "inactive"]%string
+    = [true; true; true; false; false; false; false] /\
+  map status_ok ["warning"; "errors"; "Nominal"; ""; "nominal "; "nomina"; " warn"; "1"; "0"]%string
+    = [false; false; false; false; true; false; false; false; false] /\
+  status_ok "nominally" = true.
+Proof. exact (conj status_first7 status_examples). Qed.
+Print Assumptions C12_status_first7.
+
+(* ---- defaults and statement order of the mirrored functions, regenerated from the source ---- *)
+Theorem C12_api_shape :
+  sensor_offset_default = 0%Z /\
+  sensor_extract_steps = ["get"; "shift-copy"; "clean"; "dummy-if-empty"; "decide-categorical"; "interp"]%string /\
+  sensor_get_select_default = false /\ sensor_get_extract_default = true /\ sensor_getitem_select = true /\
+  sensor_keep_default = "slice(None)"%string /\
+  sensor_get_steps = ["select-needs-extract"; "raw"; "virtual-templates-in-order"; "store-if-truthy"; "KeyError";
+                      "extract-getter-and-cache"; "select-by-keep"]%string /\
+  sensor_alias_rule = ["endswith"; "replace"]%string /\
+  concat_get_select_default = false /\ concat_get_extract_default = true.
+Proof. exact api_shape. Qed.
+Print Assumptions C12_api_shape.
+
+Theorem C12_dummy_shape :
+  sensor_dummy_float_is_nan = true /\ sensor_dummy_int = (-1)%Z /\ sensor_dummy_str = ""%string /\
+  sensor_dummy_bool = false /\ sensor_dummy_timestamp = 0%Z /\
+  sensor_dummy_order = ["floating"; "integer"; "string"; "bool"]%string.
+Proof. exact dummy_shape. Qed.
+Print Assumptions C12_dummy_shape.
+
+(* ---- the time selection `keep` in every documented form ---- *)
+(* The default keep (slice(None)) selects everything: with it cache[name] = cache.get(name). *)
+Theorem C12_keep_default : forall A (l : list A), apply_keep keep_default l = KrVals l.
+Proof. exact keep_default_identity. Qed.
+Print Assumptions C12_keep_default.
+
+(* A boolean mask of the right length is the selection of the cache model; an EMPTY mask selects nothing (numpy
+   special case); ANY other length is an IndexError (never a silently shortened selection); the index-list form
+   np.nonzero(mask)[0] of a mask selects the same values. *)
+Theorem C12_keep_mask :
+  (forall A (m : list bool) (l : list A), apply_keep (KpMask m) l =
+     if Nat.eqb (List.length m) (List.length l) then KrVals (select_mask m l)
+     else match m with [] => KrVals [] | _ => KrIndexErr end) /\
+  (forall A (m : list bool) (l : list A), List.length m = List.length l ->
+     apply_keep (KpIdx (true_pos m 0)) l = apply_keep (KpMask m) l).
+Proof. exact (conj keep_mask_spec keep_idx_of_mask). Qed.
+Print Assumptions C12_keep_mask.
+
+(* A slice selects EXACTLY the positions of Python's slice semantics (inside [0, n), on the lattice start + k*step,
+   before the stop in the direction of travel), in that order; it never raises IndexError and a zero step is the
+   only ValueError; a forward slice a:b is the contiguous block. *)
+Theorem C12_keep_slice :
+  (forall n a b s ps s0 s1 st,
+     k_positions n a b s = Some ps -> k_adjust (Z.of_nat n) a b s = Some (s0, s1, st) ->
+     forall p, In p ps <-> slice_selects (Z.of_nat n) s0 s1 st p) /\
+  (forall A (l : list A) a b s ps r,
+     k_positions (List.length l) a b s = Some ps -> apply_keep (KpSlice a b s) l = KrVals r ->
+     map Some r = map (fun p => nth_error l (Z.to_nat p)) ps) /\
+  (forall A (l : list A) a b s,
+     (s = Some 0%Z -> apply_keep (KpSlice a b s) l = KrValueErr) /\
+     (s <> Some 0%Z -> exists r, apply_keep (KpSlice a b s) l = KrVals r)) /\
+  (forall A (l : list A) a b, (0 <= a <= b)%Z -> (b <= Z.of_nat (List.length l))%Z ->
+     apply_keep (KpSlice (Some a) (Some b) None) l = KrVals (firstn (Z.to_nat (b - a)) (skipn (Z.to_nat a) l))).
+Proof. exact (conj keep_slice_positions (conj keep_slice_values (conj keep_slice_total keep_slice_contiguous))). Qed.
+Print Assumptions C12_keep_slice.
+
+(* Integer keeps: one index gives the scalar at i mod n; an index list gives one value per index in list order
+   (repeats allowed); an index outside [-n, n) is an IndexError in both forms - never a wrapped-around value. *)
+Theorem C12_keep_int :
+  (forall A (l : list A) i a, apply_keep (KpInt i) l = KrScalar a <->
+     (- Z.of_nat (List.length l) <= i < Z.of_nat (List.length l))%Z /\
+     nth_error l (Z.to_nat (i mod Z.of_nat (List.length l))) = Some a) /\
+  (forall A (l : list A) i, apply_keep (KpInt i) l = KrIndexErr <->
+     ~ (- Z.of_nat (List.length l) <= i < Z.of_nat (List.length l))%Z) /\
+  (forall A (l : list A) ix r, apply_keep (KpIdx ix) l = KrVals r ->
+     List.length r = List.length ix /\
+     forall j i, nth_error ix j = Some i ->
+       (- Z.of_nat (List.length l) <= i < Z.of_nat (List.length l))%Z /\
+       nth_error r j = nth_error l (Z.to_nat (i mod Z.of_nat (List.length l))) /\ nth_error r j <> None) /\
+  (forall A (l : list A) ix, apply_keep (KpIdx ix) l = KrIndexErr <->
+     exists i, In i ix /\ ~ (- Z.of_nat (List.length l) <= i < Z.of_nat (List.length l))%Z).
+Proof. exact (conj keep_int_spec (conj keep_int_error (conj keep_idx_spec keep_idx_error))). Qed.
+Print Assumptions C12_keep_int.
+
+Theorem C12_keep_examples :
+  (apply_keep (KpSlice (Some 1) None (Some 2)) [10; 11; 12; 13; 14; 15; 16] = KrVals [11; 13; 15] /\
+  apply_keep (KpSlice None None (Some (-2))) [10; 11; 12; 13; 14; 15; 16] = KrVals [16; 14; 12; 10] /\
+  apply_keep (KpSlice (Some (-3)) (Some 100) None) [10; 11; 12; 13; 14; 15; 16] = KrVals [14; 15; 16] /\
+  apply_keep (KpSlice None None (Some 0)) [10; 11] = KrValueErr /\
+  apply_keep (KpInt (-1)) [10; 11; 12] = KrScalar 12 /\
+  apply_keep (KpInt 3) [10; 11; 12] = KrIndexErr /\
+  apply_keep (KpIdx [0; 2; -1; 0]) [10; 11; 12] = KrVals [10; 12; 12; 10] /\
+  apply_keep (KpIdx [0; 3]) [10; 11; 12] = KrIndexErr /\
+  apply_keep (KpIdx []) [10; 11; 12] = KrVals [] /\
+  apply_keep (KpMask [true; false]) [10; 11; 12] = KrIndexErr /\
+  apply_keep (KpMask [true; false; true]) [10; 11; 12] = KrVals [10; 12])%Z.
+Proof. exact keep_examples. Qed.
+Print Assumptions C12_keep_examples.
+
+(* ---- the public get: raw sensor through ANY keep ---- *)
+(* select=True with extract=False is refused before anything is looked up or changed. *)
+Theorem C12_api_select_needs_extract : forall vf x name kw,
+  get_x vf x name true false kw = (x, XPlain RErrValue, None).
+Proof. exact api_select_needs_extract. Qed.
+Print Assumptions C12_api_select_needs_extract.
+
+(* First read of a numeric sensor through the public entry point, whatever form `keep` has: the full-length
+   interpolation of the cleaned, shifted samples is cached, the caller gets `full[keep]` (C12_keep_* say what that is),
+   the raw samples, the selection and the query log are untouched, no template and no store is consulted. *)
+Theorem C12_api_get_numeric : forall vf x name gid g select kw,
+  let c := x_c x in
+  r_lookup name (c_raw c) = Some (ERaw gid) -> nth_error (c_store c) gid = Some g ->
+  let p := fst (get_props name (c_props c) kw) in
+  let cl := clean (g_has_status g) (shift (offset_of p) (g_samples g)) in
+  cl <> [] -> decide_cat p (g_dtype g) = false -> (g_dtype g = DFloat \/ g_dtype g = DInt) ->
+  let full := map (fun t => Some (interp_d (nodes_of cl) t)) (c_ts c) in
+  let '(x', r, cr) := get_x vf x name select true kw in
+  r = (if select then XSel (apply_keep (x_keep x) full) else XPlain (RVals full)) /\
+  r_lookup name (c_raw (x_c x')) = Some (EVals full) /\ c_store (x_c x') = c_store c /\
+  x_log x' = x_log x /\ x_keep x' = x_keep x /\ cr = None.
+Proof. exact api_get_numeric. Qed.
+Print Assumptions C12_api_get_numeric.
+
+(* With a boolean mask of the length of the dump grid (what DataSet installs) the general selection IS the
+   selection of the cache model, so C12_get / C12_get_repeatable / ... speak about the public entry point. *)
+Theorem C12_api_mask_keep : forall (m : list bool) (f : Q -> qn) (ts : list Q),
+  List.length m = List.length ts -> apply_keep (KpMask m) (map f ts) = KrVals (select_mask m (map f ts)).
+Proof. exact api_mask_keep. Qed.
+Print Assumptions C12_api_mask_keep.
+
+(* _set_keep(None) changes nothing, _set_keep(k) installs k and nothing else; cache[name] is get(name, select=True). *)
+Theorem C12_api_setkeep_item : forall vf,
+  (forall x k, xstep vf x (XSetKeep None) = (x, XPlain ROk, None) /\
+               x_keep (fst (fst (xstep vf x (XSetKeep (Some k))))) = k /\
+               x_c (fst (fst (xstep vf x (XSetKeep (Some k))))) = x_c x) /\
+  (forall x name, xstep vf x (XItem name) = get_x vf x name true true p_empty).
+Proof. exact (fun vf => conj (api_setkeep vf) (api_item vf)). Qed.
+Print Assumptions C12_api_setkeep_item.
+
+(* ---- virtual-sensor templates ---- *)
+(* The template test as found in the source: `{ident}` -> `(?P<ident>[^/]+)`, re.match (anchored at the START only). *)
+Theorem C12_template_regex_shape :
+  virtual_var_pattern = "(\{[a-zA-Z_]\w*\})"%string /\ virtual_var_format = "(?P<{}>[^/]+)"%string /\
+  virtual_match_fn = "match"%string.
+Proof. exact template_shape. Qed.
+Print Assumptions C12_template_regex_shape.
+
+(* A template matches a name iff the name STARTS WITH an instance of the template (literals, one character of each
+   class, each variable a non-empty slash-free text); the bindings handed to the sensor function are those of such an
+   instance, one per variable in template order, each non-empty and slash-free. *)
+Theorem C12_template_match :
+  (forall segs s b, tm segs s = Some b -> exists p rest, s = (p ++ rest)%list /\ fits segs b p) /\
+  (forall segs b p, fits segs b p -> forall rest, tm segs (p ++ rest)%list <> None) /\
+  (forall segs s b, tm segs s = Some b ->
+     map fst b = vars_of segs /\ forall v w, In (v, w) b -> w <> [] /\ slash_free w).
+Proof. exact (conj tm_sound (conj tm_complete tm_bindings)). Qed.
+Print Assumptions C12_template_match.
+
+(* A variable is GREEDY: it takes the longest slash-free text after which the rest of the template still matches. *)
+Theorem C12_template_var_greedy : forall k s w b, var_go k s = Some (w, b) ->
+  forall w' s', s = (w' ++ s')%list -> w' <> [] -> slash_free w' -> k s' <> None ->
+  (List.length w' <= List.length w)%nat.
+Proof. exact var_go_longest. Qed.
+Print Assumptions C12_template_var_greedy.
+
+(* The test is NOT anchored at the end: it accepts exactly the names that start with a full instance, hence every
+   extension of a matching name; machine-checked witness "Antennas/m000/azimuth" against "Antennas/{ant}/az". *)
+Theorem C12_template_prefix :
+  (forall segs s, tm segs s <> None <-> exists p rest, s = (p ++ rest)%list /\ tm_full segs p <> None) /\
+  (forall segs s b, tm segs s = Some b -> forall extra, tm segs (s ++ extra)%list <> None) /\
+  (forall segs s b, tm_full segs s = Some b -> fits segs b s) /\
+  (exists segs s, parse "Antennas/{ant}/az" = Some segs /\ tm segs s <> None /\ tm_full segs s = None).
+Proof. exact (conj tm_iff_prefix_instance (conj tm_prefix_closed (conj tm_full_sound tm_not_anchored_at_end))). Qed.
+Print Assumptions C12_template_prefix.
+
+(* Templates are tried in dict order and the FIRST that matches wins; no template matches iff none does. *)
+Theorem C12_template_first_match :
+  (forall ts i name j b, resolve_from i ts name = Some (j, b) <->
+     exists k, j = (i + k)%nat /\ (exists t, nth_error ts k = Some t /\ tm t name = Some b) /\
+               forall k' t', (k' < k)%nat -> nth_error ts k' = Some t' -> tm t' name = None) /\
+  (forall ts i name, resolve_from i ts name = None <-> forall t, In t ts -> tm t name = None).
+Proof. exact (conj resolve_from_spec resolve_from_none). Qed.
+Print Assumptions C12_template_first_match.
+
+(* The registries of the five modules (dict order regenerated from the source) lie in the modelled regex subset, and
+   what the v4 registry does with documented and undocumented names. *)
+Theorem C12_template_registry :
+  (forallb (fun e => match parse_all (map fst (snd e)) with Some _ => true | None => false end) virtual_registries = true /\
+   map fst virtual_registries = ["dataset"; "h5datav1"; "h5datav2"; "h5datav3"; "visdatav4"]%string) /\
+  (funcs_at "visdatav4" (resolve_in "visdatav4" "Antennas/m000/az") = "_calc_azel" /\
+   option_map snd (resolve_in "visdatav4" "Antennas/m000/az") = Some [("ant", "m000")] /\
+   funcs_at "visdatav4" (resolve_in "visdatav4" "Timestamps/mjd") = "_calc_mjd" /\
+   funcs_at "visdatav4" (resolve_in "visdatav4" "Antennas/m000/target_y_SIN_radec") = "_calc_target_coords" /\
+   option_map snd (resolve_in "visdatav4" "Antennas/m000/target_y_SIN_radec")
+     = Some [("ant", "m000"); ("projection", "SIN"); ("coordsys", "radec")] /\
+   funcs_at "visdatav4" (resolve_in "visdatav4" "Antennas/array/basis_u") = "_calc_uvw_basis" /\
+   funcs_at "visdatav4" (resolve_in "visdatav4" "Antennas/m000/u") = "_calc_uvw_per_ant" /\
+   funcs_at "visdatav4" (resolve_in "visdatav4" "Correlator/Inputs/m000h/applied_gain") = "_calc_gain" /\
+   option_map snd (resolve_in "visdatav4" "Correlator/Inputs/m000h/applied_delay") = Some [("inp", "m000h")] /\
+   resolve_in "visdatav4" "Antennas/m0/00/az" = None /\
+   resolve_in "visdatav4" "Antennas//az" = None /\
+   resolve_in "visdatav4" "antennas/m000/az" = None /\
+   resolve_in "visdatav4" "xAntennas/m000/az" = None /\
+   resolve_in "dataset" "Antennas/m000/az" = None /\
+   funcs_at "visdatav4" (resolve_in "visdatav4" "Antennas/m000/azimuth") = "_calc_azel" /\
+   funcs_at "visdatav4" (resolve_in "visdatav4" "Antennas/m000/radec") = "_calc_radec")%string.
+Proof. exact (conj registries_parse registry_examples). Qed.
+Print Assumptions C12_template_registry.
+
+(* A name that is not in the cache and matches a template: the function of the FIRST matching template is called
+   with the bindings of the match; what it stores under the name is returned through the current keep; every other
+   cache entry, the raw samples, the selection and the query log are untouched (no store query). *)
+Theorem C12_api_template : forall vf x name select extract kw tid b,
+  select && negb extract = false ->
+  r_lookup name (c_raw (x_c x)) = None -> resolve (x_tmpl x) name = Some (tid, b) ->
+  let vals := vf (Z.of_nat tid) 0%nat [] (c_ts (x_c x)) in
+  let '(x', r, cr) := get_x vf x name select extract kw in
+  cr = Some (tid, b) /\ r = post_select (x_keep x) select (RVals vals) /\
+  r_lookup name (c_raw (x_c x')) = Some (EVals vals) /\
+  (forall n, n <> name -> r_lookup n (c_raw (x_c x')) = r_lookup n (c_raw (x_c x))) /\
+  x_log x' = x_log x /\ c_store (x_c x') = c_store (x_c x) /\ x_keep x' = x_keep x.
+Proof. exact api_template. Qed.
+Print Assumptions C12_api_template.
+
+(* ---- the katstore fallback ---- *)
+Theorem C12_katstore_shape :
+  katstore_before = 600%Z /\ katstore_after = 60%Z /\
+  katstore_checks = ["isidentifier"; "sensor==name"; "nonempty"]%string.
+Proof. exact katstore_shape. Qed.
+Print Assumptions C12_katstore_shape.
+
+(* The decision: a query is sent ONLY for a name that is neither in the cache nor matched by a template, with a
+   truthy store and an identifier name, and then it is ONE query over
+   [first dump - dump period - 600 s, last dump + dump period + 60 s]. *)
+Theorem C12_katstore_decision : forall vf x name select extract kw,
+  let x' := fst (fst (get_x vf x name select extract kw)) in
+  x_log x' = x_log x \/
+  (r_lookup name (c_raw (x_c x)) = None /\ resolve (x_tmpl x) name = None /\ store_active (x_store x) = true /\
+   is_identifier name = true /\
+   exists s e, store_window (c_ts (x_c x)) (x_dp x) = Some (s, e) /\ x_log x' = mkQy name s e :: x_log x).
+Proof. exact api_log. Qed.
+Print Assumptions C12_katstore_decision.
+
+(* No store (None or ''), or a name that is not an identifier: KeyError, nothing changes, no query. *)
+Theorem C12_katstore_keyerror : forall vf,
+  (forall x name select extract kw,
+     r_lookup name (c_raw (x_c x)) = None -> resolve (x_tmpl x) name = None -> store_active (x_store x) = false ->
+     select && negb extract = false -> get_x vf x name select extract kw = (x, XPlain RErrKey, None)) /\
+  (forall x name select extract kw t0 rest,
+     r_lookup name (c_raw (x_c x)) = None -> resolve (x_tmpl x) name = None -> store_active (x_store x) = true ->
+     select && negb extract = false -> c_ts (x_c x) = t0 :: rest -> is_identifier name = false ->
+     get_x vf x name select extract kw = (x, XPlain RErrKey, None)) /\
+  (store_active None = false /\ store_active (Some ""%string) = false /\
+   forall a s, store_active (Some (String a s)) = true) /\
+  (is_identifier "wind_speed" = true /\ is_identifier "_x9" = true /\ is_identifier "a/b" = false /\
+   is_identifier "9a" = false /\ is_identifier "" = false /\ is_identifier "a.b" = false /\ is_identifier "a b" = false).
+Proof.
+  exact (fun vf => conj (api_unknown_no_store vf) (conj (api_store_not_identifier vf)
+                     (conj store_active_spec is_identifier_examples))).
+Qed.
+Print Assumptions C12_katstore_keyerror.
+
+(* The samples the fallback uses are exactly the records of the store NAMED `name` (not merely starting with it) whose
+   time lies in the window. *)
+Theorem C12_katstore_samples : forall srv name s e smp,
+  In smp (store_samples (srv_answer srv name s e) name) <->
+  exists r, In r srv /\ k_sensor r = name /\ s <= k_t r /\ k_t r <= e /\ smp = mkS (k_t r) (k_v r) (k_st r).
+Proof. exact store_samples_spec. Qed.
+Print Assumptions C12_katstore_samples.
+
+(* They go through the ORDINARY extraction (status filter, duplicates, time_offset, interpolation, keep); the result
+   is cached under the name, so a second read does not ask the store again (C12_katstore_decision: name in cache). *)
+Theorem C12_katstore_extract : forall vf x name select kw t0 rest smp,
+  let c := x_c x in
+  r_lookup name (c_raw c) = None -> resolve (x_tmpl x) name = None -> store_active (x_store x) = true ->
+  c_ts c = t0 :: rest -> is_identifier name = true ->
+  let s := t0 - x_dp x - inject_Z katstore_before in
+  let e := List.last (t0 :: rest) t0 + x_dp x + inject_Z katstore_after in
+  store_samples (srv_answer (x_srv x) name s e) name = smp ->
+  let p := fst (get_props name (c_props c) kw) in
+  let cl := clean true (shift (offset_of p) smp) in
+  cl <> [] -> decide_cat p DFloat = false ->
+  let full := map (fun t => Some (interp_d (nodes_of cl) t)) (c_ts c) in
+  let '(x', r, cr) := get_x vf x name select true kw in
+  r = (if select then XSel (apply_keep (x_keep x) full) else XPlain (RVals full)) /\
+  r_lookup name (c_raw (x_c x')) = Some (EVals full) /\
+  x_log x' = mkQy name s e :: x_log x /\
+  c_store (x_c x') = (c_store c ++ [mkG DFloat true smp])%list /\ cr = None.
+Proof. exact api_store_extract. Qed.
+Print Assumptions C12_katstore_extract.
+
+(* extract=False hands out the fresh getter WITHOUT entering it in the cache; an empty answer is a KeyError. *)
+Theorem C12_katstore_raw_and_empty : forall vf,
+  (forall x name kw t0 rest smp,
+     let c := x_c x in
+     r_lookup name (c_raw c) = None -> resolve (x_tmpl x) name = None -> store_active (x_store x) = true ->
+     c_ts c = t0 :: rest -> is_identifier name = true ->
+     let s := t0 - x_dp x - inject_Z katstore_before in
+     let e := List.last (t0 :: rest) t0 + x_dp x + inject_Z katstore_after in
+     store_samples (srv_answer (x_srv x) name s e) name = smp -> smp <> [] ->
+     let '(x', r, cr) := get_x vf x name false false kw in
+     r = XPlain (RGetter (List.length (c_store c))) /\ c_raw (x_c x') = c_raw c /\
+     x_log x' = mkQy name s e :: x_log x /\ c_store (x_c x') = (c_store c ++ [mkG DFloat true smp])%list) /\
+  (forall x name select extract kw t0 rest,
+     let c := x_c x in
+     r_lookup name (c_raw c) = None -> resolve (x_tmpl x) name = None -> store_active (x_store x) = true ->
+     select && negb extract = false -> c_ts c = t0 :: rest -> is_identifier name = true ->
+     let s := t0 - x_dp x - inject_Z katstore_before in
+     let e := List.last (t0 :: rest) t0 + x_dp x + inject_Z katstore_after in
+     store_samples (srv_answer (x_srv x) name s e) name = [] ->
+     get_x vf x name select extract kw = (with_log x (mkQy name s e :: x_log x), XPlain RErrKey, None)).
+Proof. exact (fun vf => conj (api_store_raw vf) (api_store_no_data vf)). Qed.
+Print Assumptions C12_katstore_raw_and_empty.
+
+(* ---- the concatenated cache: dummy value per dtype ---- *)
+Theorem C12_concat_fill_shape :
+  concat_fill_steps = ["parts"; "KeyError-if-all-missing"; "re-extract-if-partly-extracted"; "props";
+                       "common-dtype-of-unselected-parts"; "dummy(initial_value,dtype)"; "extract-dummy-per-part";
+                       "array-if-non-float-and-no-categorical"; "write-back"; "concatenate"]%string.
+Proof. exact concat_fill_shape. Qed.
+Print Assumptions C12_concat_fill_shape.
+
+(* The documented dummy value: an explicit initial_value (with ITS type), else NaN / -1 / '' / False by dtype -
+   the same table as the single-cache model, built from the constants regenerated from dummy_sensor_getter. *)
+Theorem C12_concat_dummy_table :
+  (fill_dummy None DFloat = (DFloat, FNum None) /\ fill_dummy None DInt = (DInt, FInt (-1)) /\
+   fill_dummy None DStr = (DStr, FStr true) /\ fill_dummy None DBool = (DBool, FBool false) /\
+   (forall i dt, fill_dummy (Some i) dt = (init_dtype i, init_fval i))) /\
+  (forall dt, fst (fill_dummy None dt) = fst (dummy_value None dt) /\
+              fval_of_dval (snd (dummy_value None dt)) = Some (snd (fill_dummy None dt))).
+Proof. exact (conj fill_dummy_table fill_dummy_agrees). Qed.
+Print Assumptions C12_concat_dummy_table.
+
+(* The dtype the default is chosen by is the common dtype of the parts that HAVE the sensor: it is the dtype of one
+   of them, absorbs every other (bool < int < float < str, as np.result_type) and does not depend on their order. *)
+Theorem C12_concat_common_dtype :
+  (forall l d, promote_all l = Some d -> In d l /\ forall x, In x l -> x <> DObj -> promote2 x d = Some d) /\
+  (forall l l', Permutation.Permutation l l' -> promote_all l = promote_all l') /\
+  (promote_all [DBool; DInt] = Some DInt /\ promote_all [DInt; DFloat; DBool] = Some DFloat /\
+   promote_all [DStr; DStr] = Some DStr /\ promote_all [DStr; DInt] = Some DStr /\ promote_all [] = None /\
+   promote_all [DBool] = Some DBool).
+Proof. exact (conj promote_all_spec (conj promote_all_perm promote_examples)). Qed.
+Print Assumptions C12_concat_common_dtype.
+
+(* Parts that have the sensor come out exactly as they answer themselves; a part that lacks it gets a filler that is
+   CONSTANT over its own dumps with the documented value - an array when the filler is interpolated or when the common
+   dtype is not a float and no present part is categorical, categorical data otherwise. *)
+Theorem C12_concat_fill : 
+  (forall parts p dtype,
+     let rs := map (fun ns => part_get (fst ns) (snd ns) p) parts in
+     forallb is_pmissing rs = false -> existsb is_perr rs = false ->
+     promote_all (somes (map pres_dtype rs)) = Some dtype ->
+     fst (cfill parts p) =
+     map (fun ns => let r := part_get (fst ns) (snd ns) p in
+                    if is_pmissing r then fill_one dtype (existsb is_pcat rs) p (fst ns) else r) parts) /\
+  (forall dtype anycat p n,
+     let '(dt', fv) := fill_dummy (f_init p) dtype in
+     fill_one dtype anycat p n =
+       if f_decide p dt' then
+         if negb (is_float dtype) && negb anycat then PArr dt' (repeat (fnum fv) n) else PCat dt' (Some fv)
+       else match as_float fv with Some q => PArr DFloat (repeat q n) | None => PErr end) /\
+  (forall dtype anycat p n, fill_one dtype anycat p n <> PErr ->
+     (is_parr (fill_one dtype anycat p n) = true <->
+      f_decide p (fst (fill_dummy (f_init p) dtype)) = false \/ (is_float dtype = false /\ anycat = false))) /\
+  (forall parts p, forallb is_pmissing (map (fun ns => part_get (fst ns) (snd ns) p) parts) = true ->
+     snd (cfill parts p) = CKey).
+Proof. exact (conj cfill_parts (conj fill_one_spec (conj fill_one_array_iff cfill_all_missing))). Qed.
+Print Assumptions C12_concat_fill.
+
+(* The all-float case is the one C12_concat_cache_fills states on the cache model: NaN or the float initial value. *)
+Theorem C12_concat_fill_float : forall anycat p n,
+  (f_init p = None \/ exists q, f_init p = Some (IFloat q)) -> (f_cat p = None \/ f_cat p = Some false) ->
+  fill_one DFloat anycat p n =
+  PArr DFloat (repeat (match f_init p with Some (IFloat q) => Some q | _ => None end) n).
+Proof. exact fill_one_float. Qed.
+Print Assumptions C12_concat_fill_float.
+
+Theorem C12_concat_fill_examples :
+  cfill [(2%nat, SArr DFloat [Some 1; Some 2]); (3%nat, SMissing)] (mkFP None None)
+    = ([PArr DFloat [Some 1; Some 2]; PArr DFloat [None; None; None]],
+       CArr (Some DFloat) [Some 1; Some 2; None; None; None]) /\
+  snd (cfill [(2%nat, SArr DFloat [Some 1; Some 2]); (2%nat, SMissing)] (mkFP None (Some (IFloat 7))))
+    = CArr (Some DFloat) [Some 1; Some 2; Some 7; Some 7] /\
+  cfill [(2%nat, SArr DInt [Some 4; Some 5]); (2%nat, SMissing)] (mkFP None None)
+    = ([PArr DInt [Some 4; Some 5]; PArr DInt [Some (-1 # 1); Some (-1 # 1)]],
+       CArr (Some DInt) [Some 4; Some 5; Some (-1 # 1); Some (-1 # 1)]) /\
+  snd (cfill [(1%nat, SArr DInt [Some 4]); (1%nat, SArr DBool [Some 1]); (1%nat, SMissing)] (mkFP None None))
+    = CArr (Some DInt) [Some 4; Some 1; Some (-1 # 1)] /\
+  cfill [(2%nat, SGet DInt 3); (2%nat, SMissing)] (mkFP None None)
+    = ([PCat DInt None; PCat DInt (Some (FInt (-1)))], CCat) /\
+  fst (cfill [(2%nat, SGet DStr 0); (2%nat, SMissing)] (mkFP None None))
+    = [PCat DStr None; PCat DStr (Some (FStr true))] /\
+  cfill [(2%nat, SArr DFloat [Some 1; Some 2]); (1%nat, SMissing)] (mkFP None (Some (IInt 7)))
+    = ([PArr DFloat [Some 1; Some 2]; PCat DInt (Some (FInt 7))], CMixed) /\
+  snd (cfill [(2%nat, SArr DInt [Some 4; Some 5]); (1%nat, SMissing)] (mkFP (Some false) None))
+    = CArr (Some DFloat) [Some 4; Some 5; Some (-1 # 1)] /\
+  snd (cfill [(2%nat, SMissing); (1%nat, SMissing)] (mkFP None None)) = CKey.
+Proof. exact cfill_examples. Qed.
+Print Assumptions C12_concat_fill_examples.
+
+(* ---- the v4-only virtual sensors Correlator/Inputs/{inp}/applied_delay | applied_phase ---- *)
+(* Read through the cache, the sensor built by _calc_delay from the CBF updates (chronological, more than 1e-6 s apart)
+   goes through the ordinary extraction unchanged: every dump gets the interpolation of the built nodes. *)
+Theorem C12_v4_applied_read : forall which S F ups ts fin,
+  v4_final S F ups ts = Some fin -> ups_ok S F fin ups ->
+  v4_applied which S F ups ts =
+  XVals (map (fun t => Some (interp_d (sh (offset_of p_empty)
+                                          (if which then v4_nodes S F fin u_d u_dr ups
+                                           else v4_nodes S F fin u_p u_pr ups)) t)) ts).
+Proof. exact v4_applied_values. Qed.
+Print Assumptions C12_v4_applied_read.
+
+(* The documented function: between an update and (1e-6 s before) the next one - and after the last update up to
+   final_time - the value is the update's value advanced at the update's own rate; before the first update the first
+   value is held; and the independent statement "latest update at or before t" (spec_applied) names the same update. *)
+Theorem C12_v4_applied_piecewise :
+  (forall S F fin val rate pre u post off t,
+     ups_ok S F fin (pre ++ u :: post)%list -> u_time S F u + off <= t ->
+     t <= match post with v :: _ => u_time S F v - v4_eps | [] => fin end + off ->
+     interp_d (sh off (v4_nodes S F fin val rate (pre ++ u :: post)%list)) t
+       == val u + rate u * (t - (u_time S F u + off))) /\
+  (forall S F fin val rate u rest off t,
+     ups_ok S F fin (u :: rest) -> t <= u_time S F u + off ->
+     interp_d (sh off (v4_nodes S F fin val rate (u :: rest))) t == val u) /\
+  (forall S F fin val rate pre u post t,
+     ups_ok S F fin (pre ++ u :: post)%list -> u_time S F u <= t ->
+     t <= match post with v :: _ => u_time S F v - v4_eps | [] => fin end ->
+     spec_applied S F val rate (pre ++ u :: post)%list t = Some (val u + rate u * (t - u_time S F u))) /\
+  (forall S F fin val rate u rest t,
+     ups_ok S F fin (u :: rest) -> t < u_time S F u -> spec_applied S F val rate (u :: rest) t = Some (val u)) /\
+  (forall S F u0 ups t0 ts, v4_final S F (u0 :: ups) (t0 :: ts) =
+     Some (qmax (u_time S F (List.last (u0 :: ups) u0)) (List.last (t0 :: ts) t0) + v4_pad)) /\
+  (forall a b, a <= qmax a b /\ b <= qmax a b).
+Proof.
+  exact (conj v4_piecewise (conj v4_before_first (conj v4_spec_piecewise (conj v4_spec_before_first
+          (conj v4_final_spec qmax_ge))))).
+Qed.
+Print Assumptions C12_v4_applied_piecewise.
+
+(* From the source at every run: the end point of an update's segment lies 1e-6 s before the next update, final_time
+   1 s after the later of the last update and the last dump; the statement order of _calc_delay. *)
+Theorem C12_v4_delay_shape : v4_eps == 1 # 1000000 /\ v4_pad == 1 /\
+  v4_delay_steps = ["times=sync+count/scale"; "final=max(last update,last dump)+pad"; "next_times=times[1:]-eps,final";
+                    "next=value+rate*(next_times-times)"; "interleave"; "store delay and phase getters"]%string.
+Proof. exact v4_constants. Qed.
+Print Assumptions C12_v4_delay_shape.
+
+Theorem C12_v4_applied_example :
+  let ups := [mkU 0 1 (-1) 0 2; mkU 8 2 0 10 3; mkU 16 3 1 20 4] in
+  let ts := [98; 100; 101; 103; 104; 106; 108; 110] in
+  SensorV4.of_xres (v4_applied true 100 2 ups ts)
+    = L [I 0%Z; L (map (fun z => of_qn (Some (inject_Z z))) [1; 1; 0; -2; 2; 2; 3; 5]%Z)] /\
+  L (map (fun t => of_qn (spec_applied 100 2 u_d u_dr ups t)) ts)
+    = L (map (fun z => of_qn (Some (inject_Z z))) [1; 1; 0; -2; 2; 2; 3; 5]%Z) /\
+  SensorV4.of_xres (v4_applied false 100 2 ups ts)
+    = L [I 0%Z; L (map (fun z => of_qn (Some (inject_Z z))) [0; 0; 2; 6; 10; 16; 20; 28]%Z)] /\
+  v4_applied true 100 2 [] ts = XErr /\ v4_applied true 100 2 ups [] = XErr.
+Proof. exact v4_example. Qed.
+Print Assumptions C12_v4_applied_example.
